@@ -18,12 +18,15 @@ def configs(tier, seed):
         kmax = 3 if n < 4 or tier == "thorough" else 2
         if n == 5:
             kmax = 2
-        for part in sup.partitions(n, 2, kmax):
+        parts = sup.partitions(n, 2, kmax)
+        if n == 5:
+            parts = [(0, 0, 0, 0, 1), (0, 0, 0, 1, 1), (0, 1, 0, 1, 0), (0, 1, 1, 1, 1)]
+        for part in parts:
             for branch in ("pre", "fn"):
-                if tier == "quick" and n == 4 and branch == "fn":
+                if (tier == "quick" and n == 4 and branch == "fn") or (n == 5 and branch == "fn"):
                     continue
                 ws = 11 if n <= 3 else (97 if n == 4 else 4001)
-                for k in range(n - 1):
+                for k in (range(n - 1) if n < 5 else (0, 3)):
                     cfgs.append(dict(n=n, nq=1, K=3, part=list(part), branch=branch, mode="perm", swap=k,
                                      weight=10 ** n * 3, wstride=ws))
                 if n <= 3 or (tier == "thorough" and n == 4):
